@@ -85,10 +85,19 @@ func (r *stubRunner) Finish() { atomic.AddInt32(&r.finished, 1) }
 // buildRealGraph builds the real ExecutionGraph through the public builder in
 // declaration order. An error means the real builder rejected the graph.
 func buildRealGraph(g *GraphSpec, stages map[string]*scheduler.Stage) (*scheduler.ExecutionGraph, error) {
+	return buildRealGraphC(g, stages, map[*GraphSpec]*scheduler.ExecutionGraph{})
+}
+
+// (a pipeline nested by several stages is one shared graph object, as the configuration builder makes it)
+func buildRealGraphC(g *GraphSpec, stages map[string]*scheduler.Stage, built map[*GraphSpec]*scheduler.ExecutionGraph) (*scheduler.ExecutionGraph, error) {
+	if eg, ok := built[g]; ok {
+		return eg, nil
+	}
 	eg, err := scheduler.NewExecutionGraph()
 	if err != nil {
 		return nil, err
 	}
+	built[g] = eg
 	for _, s := range g.Stages {
 		st := &scheduler.Stage{
 			Name:         s.Name,
@@ -104,7 +113,7 @@ func buildRealGraph(g *GraphSpec, stages map[string]*scheduler.Stage) (*schedule
 			st.Condition = "/nonexistent/verif-missing-binary"
 		}
 		if s.Nested != nil {
-			inner, err := buildRealGraph(s.Nested, stages)
+			inner, err := buildRealGraphC(s.Nested, stages, built)
 			if err != nil {
 				return nil, err
 			}
@@ -142,8 +151,8 @@ type schedEngine struct {
 	model    *DagResult
 	modelAlt *DagResult
 	stages   map[string]*scheduler.Stage
-	parent   map[string]*StageSpec // stage name -> enclosing nested stage (nil at root)
-	graphOf  map[string]*GraphSpec // stage name -> graph that declares it
+	parents  map[string][]*StageSpec // stage name -> the stages that nest its pipeline (none at root)
+	graphOf  map[string]*GraphSpec   // stage name -> graph that declares it
 	byName   map[string]*StageSpec
 
 	returned      bool
@@ -161,7 +170,17 @@ type schedEngine struct {
 func (e *schedEngine) index(g *GraphSpec, parent *StageSpec) {
 	for _, s := range g.Stages {
 		e.byName[s.Name] = s
-		e.parent[s.Name] = parent
+		if parent != nil {
+			dup := false
+			for _, q := range e.parents[s.Name] {
+				if q == parent {
+					dup = true
+				}
+			}
+			if !dup {
+				e.parents[s.Name] = append(e.parents[s.Name], parent)
+			}
+		}
 		e.graphOf[s.Name] = g
 		if s.Nested != nil {
 			e.index(s.Nested, s)
@@ -228,6 +247,34 @@ func (e *schedEngine) depSatisfied(d *StageSpec) (bool, string) {
 	return true, ""
 }
 
+// chainSatisfied: the dependencies of s are satisfied, and so are those of at least one chain of
+// stages that nest s's pipeline (and that stage's goroutine has been started).
+func (e *schedEngine) chainSatisfied(s *StageSpec) (bool, string) {
+	g := e.graphOf[s.Name]
+	for _, dn := range s.Deps {
+		if ok, why := e.depSatisfied(g.Stage(dn)); !ok {
+			return false, fmt.Sprintf("dependency %s of %s is not finished: %s", dn, s.Name, why)
+		}
+	}
+	ps := e.parents[s.Name]
+	if len(ps) == 0 {
+		return true, ""
+	}
+	why := ""
+	for _, p := range ps {
+		if !e.stageReleased[p.Name] {
+			why = fmt.Sprintf("the stage %s that nests its pipeline has not started", p.Name)
+			continue
+		}
+		ok, w := e.chainSatisfied(p)
+		if ok {
+			return true, ""
+		}
+		why = w
+	}
+	return false, why
+}
+
 func (e *schedEngine) onEvent(ev *Event) {
 	c := e.c
 	switch ev.Kind {
@@ -237,15 +284,10 @@ func (e *schedEngine) onEvent(ev *Event) {
 		if e.enters[ev.Subject] > 1 {
 			c.Violate("C03", "run-twice", "stage %s was executed %d times", ev.Subject, e.enters[ev.Subject])
 		}
-		// C01: every dependency, at this level and for every enclosing nested stage
-		for s := x; s != nil; s = e.parent[s.Name] {
-			g := e.graphOf[s.Name]
-			for _, dn := range s.Deps {
-				ok, why := e.depSatisfied(g.Stage(dn))
-				if !ok {
-					c.Violate("C01", "start-before-dep", "stage %s started (run-enter seq %d) but dependency %s of %s is not finished: %s", x.Name, ev.Seq, dn, s.Name, why)
-				}
-			}
+		// C01: every dependency, at this level and - through some stage that nests this pipeline -
+		// at every enclosing level (a pipeline nested by several stages runs once, for the first of them)
+		if ok, why := e.chainSatisfied(x); !ok {
+			c.Violate("C01", "start-before-dep", "stage %s started (run-enter seq %d) but %s", x.Name, ev.Seq, why)
 		}
 		n := 0
 		for name := range e.enters {
@@ -394,7 +436,7 @@ func RunSchedWorld(c *Ctl, prof *SchedProfile, g *GraphSpec, res *RunResult) {
 	e := &schedEngine{
 		c: c, prof: prof, g: g,
 		stages:        map[string]*scheduler.Stage{},
-		parent:        map[string]*StageSpec{},
+		parents:       map[string][]*StageSpec{},
 		graphOf:       map[string]*GraphSpec{},
 		byName:        map[string]*StageSpec{},
 		enters:        map[string]int{},
